@@ -778,4 +778,25 @@ theorem isExperimental_iff (f : Facts) (hf : f.includesSlash = true) (dirs : Lis
     simp [hs, this]
   · simp [hs]
 
+/-! ### what a pattern selects (used by visibility and by exclude patterns) -/
+
+/-- What a label used as a pattern (`//p/...`, `//p:all`, `//p:x`) selects. -/
+def PatternSelects (e l : Label) : Prop :=
+  if e.name = dots then Under e.pkg l.pkg
+  else if e.name = allName then e.pkg = l.pkg
+  else e.pkg = l.pkg ∧ e.name = l.name
+
+instance (e l : Label) : Decidable (PatternSelects e l) := by unfold PatternSelects; exact inferInstance
+
+theorem includes_iff_patternSelects (lf : Facts) (h : lf.includesSlash = true) (e l : Label) :
+    includes lf e l = true ↔ PatternSelects e l := by
+  unfold PatternSelects
+  obtain ⟨ep, en, es⟩ := e
+  obtain ⟨lp, ln, ls⟩ := l
+  by_cases h1 : en = dots
+  · subst h1; simp only [if_true]; exact includes_dots lf h _ _ _ _ _
+  · by_cases h2 : en = allName
+    · subst h2; simp only [h1, if_false, if_true]; exact includes_all lf _ _ _ _ _
+    · simp only [h1, h2, if_false]; exact includes_exact lf _ _ _ _ _ _ h1 h2
+
 end PlzVerif.Label
